@@ -885,7 +885,57 @@ func suiteAsm(tier string, seed uint64, model string) *Report {
 		}
 	}
 	rep.Distinct = len(distinct)
-	rep.Rule = "directed plans (aliasing, literal reuse, order tests with a path or call first, cond values) and seeded plans of 1-4 statements (set / setall / del / delall on $.asm..., $.src, @...; bare expressions) over 37 modelled functions incl. aliases (+ - * / == != < <= > >=), all argument kinds (null, bool, ints incl. int64 extremes, floats, strings, arrays, objects, paths with child/index/slice, nested calls, wrong arities), cond clauses, each with a body, nested asm; roots with seeded $.src trees; checked per case: Execute neither panics nor hangs; result root vs the extracted model where the model decides; a second plan and a second run of the same plan give the same result; Simplify() and String() rebuild a plan with the same behaviour; $.src unchanged unless an updating function names a location under $.src or @; non-trivial = cases the model decides"
+	// directed laws on unmodelled functions
+	runText := func(plan string, root any) (map[string]any, string) {
+		var out map[string]any
+		res := safe(func() string {
+			l, _ := sen.MustParse([]byte(plan)).([]any)
+			rt, _ := copyTyped(root).(map[string]any)
+			if err := asm.NewPlan(l).Execute(rt); err != nil {
+				return "E " + err.Error()
+			}
+			out = rt
+			return "ok"
+		})
+		return out, res
+	}
+	// sort and reverse are documented to return a copy: writing into the stored result never reaches $.src
+	for _, fn := range []string{"sort $.src.l @", "reverse $.src.l"} {
+		for ln := 1; ln <= 4; ln++ {
+			l := make([]any, ln)
+			for i := range l {
+				l[i] = int64((i*7 + 3) % 5)
+			}
+			root := map[string]any{"src": map[string]any{"l": l}}
+			rep.Evaluations++
+			out, res := runText(`[[set $.asm.s [`+fn+`]] [set "$.asm.s[0]" 99]]`, root)
+			if res != "ok" || Show(out["src"]) != Show(root["src"]) {
+				rep.Add(Disagreement{Case: fn + " on " + Show(l), Where: "Plan.Execute", Kind: "impl-law:copy-function-aliases-source", Impl: res + " src=" + showGuard(out["src"]), Model: "src=" + Show(root["src"])})
+			}
+		}
+	}
+	// each: every element gets its own @ - the result for an element does not depend on the others
+	eachPlan := `[[set $.asm [each $.src [asm [cond [[gt @.src 1] [set @.tmp @.src]] [true @]] [set @.asm @.tmp]]]]]`
+	for k := 0; k < 40; k++ {
+		l := []any{int64(fixed.Intn(4)), int64(fixed.Intn(4)), int64(fixed.Intn(4)), int64(fixed.Intn(4))}
+		rep.Evaluations++
+		whole, res := runText(eachPlan, map[string]any{"src": l})
+		var parts []any
+		for _, e := range l {
+			one, r1 := runText(eachPlan, map[string]any{"src": []any{e}})
+			if r1 != "ok" {
+				res = r1
+				break
+			}
+			if a, ok := one["asm"].([]any); ok && len(a) == 1 {
+				parts = append(parts, a[0])
+			}
+		}
+		if res != "ok" || Show(whole["asm"]) != Show(parts) {
+			rep.Add(Disagreement{Case: "each over " + Show(l), Where: "Plan.Execute", Kind: "impl-law:each-elements-not-independent", Impl: res + " " + showGuard(whole["asm"]), Model: Show(parts)})
+		}
+	}
+	rep.Rule = "directed laws: sort / reverse results do not alias $.src; each element of an each is evaluated independently; directed plans (aliasing, literal reuse, order tests with a path or call first, cond values) and seeded plans of 1-4 statements (set / setall / del / delall on $.asm..., $.src, @...; bare expressions) over 37 modelled functions incl. aliases (+ - * / == != < <= > >=), all argument kinds (null, bool, ints incl. int64 extremes, floats, strings, arrays, objects, paths with child/index/slice, nested calls, wrong arities), cond clauses, each with a body, nested asm; roots with seeded $.src trees; checked per case: Execute neither panics nor hangs; result root vs the extracted model where the model decides; a second plan and a second run of the same plan give the same result; Simplify() and String() rebuild a plan with the same behaviour; $.src unchanged unless an updating function names a location under $.src or @; non-trivial = cases the model decides"
 	return rep
 }
 
